@@ -14,6 +14,59 @@ func chanPtr(ch interface{}) uintptr {
 	return uintptr((*eface)(unsafe.Pointer(&ch)).data)
 }
 
+// Unbuffered channels made by instrumented code (make(chan T), make(chan T, 0))
+// are created with room for one value and registered here: a send is enabled
+// only while a receiver is waiting on the channel (parked in a receive or in
+// a parked select with that receive case) and the slot is empty, so the value
+// is handed to a receiver that is already committed to take it - the
+// rendezvous of the real primitive, up to the order of two steps nobody can
+// observe. len and cap of such a channel report 0 (ChanLen, ChanCap).
+var unbuffered = map[uintptr]bool{}
+var unbufferedKeep []interface{}
+
+// MakeChan replaces make(chan T[, n]) in instrumented code.
+func MakeChan[C any](n int, mk func(int) C) C {
+	if n != 0 {
+		return mk(n)
+	}
+	c := mk(1)
+	p := chanPtr(c)
+	unbuffered[p] = true
+	if s := S; s != nil {
+		// made during a controlled execution: forgotten when the next execution starts
+		s.keep = append(s.keep, c) // the address must not be reused while it is registered
+		unbufferedOfRun = append(unbufferedOfRun, p)
+	} else {
+		unbufferedKeep = append(unbufferedKeep, c)
+	}
+	return c
+}
+
+var unbufferedOfRun []uintptr
+
+// forgetRunChannels drops the registrations of the previous execution.
+func forgetRunChannels() {
+	for _, p := range unbufferedOfRun {
+		delete(unbuffered, p)
+	}
+	unbufferedOfRun = unbufferedOfRun[:0]
+}
+
+// ChanCap / ChanLen replace cap(ch) / len(ch) on channels.
+func ChanCap(ch interface{}) int {
+	if unbuffered[chanPtr(ch)] {
+		return 0
+	}
+	return reflect.ValueOf(ch).Cap()
+}
+
+func ChanLen(ch interface{}) int {
+	if unbuffered[chanPtr(ch)] {
+		return 0
+	}
+	return reflect.ValueOf(ch).Len()
+}
+
 func (s *sched) recvReady(v reflect.Value, p uintptr) bool {
 	if v.IsNil() {
 		return false
@@ -24,17 +77,15 @@ func (s *sched) recvReady(v reflect.Value, p uintptr) bool {
 	if s.closed[p] {
 		return true
 	}
-	if v.Cap() == 0 {
-		// unbuffered channels are only supported as close-only signals
-		// (context.Done()): a successful non-blocking receive means closed.
-		// Nothing ever sends on them, so the probe cannot consume a value.
-		x, ok := v.TryRecv()
-		if ok {
-			panic("vrt: received a value from an unbuffered channel while probing; sends on unbuffered channels are not supported")
-		}
-		return x.IsValid() // valid zero value: the channel is closed
+	// An empty channel: ready only if it is closed. Closed-ness is probed on the real channel (it may
+	// have been closed outside this execution - a package-level "always ready" signal, a channel of
+	// context.Context): a non-blocking receive on an EMPTY channel returns a valid zero value exactly
+	// when the channel is closed, and consumes nothing when it is open.
+	x, ok := v.TryRecv()
+	if ok {
+		panic("vrt: received a value from an empty channel while probing; a sender outside the controlled scheduler is not supported")
 	}
-	return false
+	return x.IsValid()
 }
 
 func (s *sched) sendReady(v reflect.Value, p uintptr) bool {
@@ -44,8 +95,11 @@ func (s *sched) sendReady(v reflect.Value, p uintptr) bool {
 	if s.closed[p] {
 		return true // will panic, like the real operation
 	}
+	if unbuffered[p] {
+		return s.recvWaiters[p] > 0 && v.Len() == 0
+	}
 	if v.Cap() == 0 {
-		panic("vrt: send on an unbuffered channel is not supported by the controlled scheduler")
+		panic("vrt: send on an unbuffered channel that was not made by instrumented code is not supported by the controlled scheduler")
 	}
 	return v.Len() < v.Cap()
 }
@@ -76,6 +130,10 @@ func beforeRecv(ch interface{}) {
 	}
 	v := reflect.ValueOf(ch)
 	p := chanPtr(ch)
+	if unbuffered[p] {
+		s.recvWaiters[p]++
+		defer func() { s.recvWaiters[p]-- }()
+	}
 	s.point("chan.recv", p, func() bool { return s.recvReady(v, p) })
 	if s.hb != nil && !s.aborting {
 		s.hb.chanRecv(s.cur, p, v.Len() == 0 && s.closed[p])
@@ -113,8 +171,8 @@ func Recv2[T any](ch <-chan T) (T, bool) {
 	return v, ok
 }
 
-// Close replaces close(ch).
-func Close[T any](ch chan T) {
+// Close replaces close(ch) (bidirectional and send-only channels alike).
+func Close(ch interface{}) {
 	s := S
 	if s != nil && !s.aborting {
 		p := chanPtr(ch)
@@ -130,7 +188,7 @@ func Close[T any](ch chan T) {
 			s.hb.chanClose(s.cur, p)
 		}
 	}
-	close(ch)
+	reflect.ValueOf(ch).Close()
 }
 
 // SelCase is one communication case of a select statement.
@@ -192,6 +250,12 @@ func Select(hasDefault bool, cases ...SelCase) int {
 		// to the parked goroutine); later operations on other channels
 		// cannot change the outcome. The predicate is evaluated after every
 		// single step of any thread, so it sees that first operation.
+		for i, c := range cases {
+			if !c.send && unbuffered[ps[i]] {
+				s.recvWaiters[ps[i]]++
+				defer func(p uintptr) { s.recvWaiters[p]-- }(ps[i])
+			}
+		}
 		fired := -1
 		caseReady := func(i int) bool {
 			if cases[i].send {
@@ -199,7 +263,17 @@ func Select(hasDefault bool, cases ...SelCase) int {
 			}
 			return s.recvReady(vs[i], ps[i])
 		}
-		s.point(fmt.Sprintf("select(%d) parked", len(cases)), 0, func() bool {
+		parkDesc := fmt.Sprintf("select(%d) parked", len(cases))
+		recvOnly := true
+		for _, c := range cases {
+			if c.send {
+				recvOnly = false
+			}
+		}
+		if recvOnly {
+			parkDesc += "(recv-only)"
+		}
+		s.point(parkDesc, 0, func() bool {
 			if fired >= 0 && caseReady(fired) {
 				return true
 			}
